@@ -140,3 +140,56 @@ fn http_headers_every_value() {
     assert!(entries == 3);
     assert!(out[p] == b'\n' && out[p + 1] == b'\n' && p + 2 == n);
 }
+
+// ---- http_headers (the adapter over http::Response): write_headers is verified by Verus (unit `response`); here it is
+// replaced by a recording stub, so that what the harness decides is exactly the adapter's job: every entry of the
+// header map -- each value of a repeated name -- is handed to write_headers, in the map's iteration order, together
+// with the response's status.
+fn write_headers_recorder<'a, W, I>(mut w: W, status: http::StatusCode, headers: I) -> std::io::Result<usize>
+where
+    W: std::io::Write,
+    I: IntoIterator<Item = (&'a [u8], &'a [u8])>,
+{
+    let mut n = 0;
+    let code = status.as_u16();
+    w.write_all(&[(code >> 8) as u8, code as u8])?;
+    n += 2;
+    for (name, val) in headers {
+        w.write_all(&[name.len() as u8])?;
+        w.write_all(name)?;
+        w.write_all(&[val.len() as u8])?;
+        w.write_all(val)?;
+        n += 2 + name.len() + val.len();
+    }
+    Ok(n)
+}
+
+// (not run: even with write_headers stubbed CBMC does not finish in 15 min -- the cost is http::HeaderMap itself)
+// @C99 kani.response.http_headers_hands_over_every_entry bounded(one concrete response: 204, set-cookie twice and one other header; write_headers stubbed by a recorder; oracle = the map's own iteration)
+#[kani::proof]
+#[kani::stub(fastcgi_server::cgi::response::write_headers, write_headers_recorder)]
+#[kani::unwind(12)]
+fn http_headers_hands_over_every_entry() {
+    use fastcgi_server::cgi::response::http_headers;
+    let mut resp = http::Response::new(());
+    *resp.status_mut() = http::StatusCode::NO_CONTENT;
+    resp.headers_mut().append(http::header::SET_COOKIE, http::HeaderValue::from_static("a"));
+    resp.headers_mut().append(http::header::AGE, http::HeaderValue::from_static("7"));
+    resp.headers_mut().append(http::header::SET_COOKIE, http::HeaderValue::from_static("c"));
+    let mut out = [0xAAu8; 64];
+    let mut w: &mut [u8] = &mut out[..];
+    let n = match http_headers(&mut w, &resp) { Ok(n) => n, Err(_) => { assert!(false); return; } };
+    assert!(out[0] == 0 && out[1] == 204);
+    let mut p = 2;
+    let mut entries = 0;
+    for (name, val) in resp.headers().iter() {
+        let nb: &[u8] = name.as_ref();
+        let vb: &[u8] = val.as_ref();
+        assert!(out[p] == nb.len() as u8); p += 1;
+        let mut i = 0; while i < nb.len() { assert!(out[p + i] == nb[i]); i += 1; } p += nb.len();
+        assert!(out[p] == vb.len() as u8); p += 1;
+        let mut i = 0; while i < vb.len() { assert!(out[p + i] == vb[i]); i += 1; } p += vb.len();
+        entries += 1;
+    }
+    assert!(entries == 3 && p == n);
+}
